@@ -547,7 +547,7 @@ func main() {
 	smallOffs := []int{-1, 0, 1}
 	smallSizes := []int{-1, 2, 9}
 	if r.Replay != "" {
-		r.Fault("replay: rebuild the chain in detail.chain and issue detail.call; not implemented")
+		r.ReplayBySearch()
 	}
 	if idx, n, arg, ok := r.Worker(); ok {
 		r.Watchdog(60 * time.Second)
